@@ -1,2 +1,8 @@
 import S3db.Model.AList
 import S3db.Model.Value
+import S3db.Gen.Crdt
+import S3db.Gen.Key
+import S3db.Lemmas.Sel
+import S3db.Model.Kv
+import S3db.Lemmas.KvMerge
+import S3db.Props.C17
